@@ -134,6 +134,16 @@ CLAIMED = {
         text="ClientDoneOk => v proposed, data well-formed for v, magic equal; TLC enumerates known/unknown, proposed/unproposed versions x data shapes x magics; a raw segment-level responder sends each acceptance to the real client.",
         note="HandshakeAdvLegacy.cfg keeps the pre-fix design and must fail ClientSafe.",
         design_ref="§5 C19", engine="handshake"),
+    "C23": dict(
+        technique="TLA+ model of the block-fetch client calls (BlockFetchClient.tla: GetBlock, GetBlockRange, handlers, busy lock) against every server response shape, TLC invariants + termination; each (call, point, shape, close, follow-up) case replayed by a raw peer serving real blocks to the real client",
+        text="GetBlockSound/GetBlockExact (a block is returned only if exactly one block with the point's hash was served), RangeOrder/RangeReturn, BusyLock, and liveness Termination are model-checked for all shapes (NoBlocks; StartBatch.BatchDone; one matching / non-matching block; several blocks; each optionally followed by close); the real client's observed outcome must be one of the specification's terminal outcomes, a follow-up call proves the lock and Idle state were given back.",
+        note="a 'hang' verdict needs the deadline, the peer having written everything, and two goroutine dumps showing the caller parked in GetBlock; the as-code cfgs keep the pre-fix design and must fail.",
+        design_ref="§5 C23", engine="clients"),
+    "C25": dict(
+        technique="TLA+ model of concurrent request/response callers with and without a call mutex (ReqResp.tla, invariant OwnAnswer), TLC exhaustive for 3 goroutines x 2 calls + emitted schedules; replayed on the four real clients against the library's servers with tagging callbacks",
+        text="Every returned call must carry its own request's tag (query echo, HasTx parity, NextTx/GetSizes counters, SubmitTx parity, GetPeers(n) -> n peers), across acquire/re-acquire/release; schedules are issued in each history's happens-before order with seeded delays at the Enqd hook (between enqueue and wait), followed by barrier-released stress rounds.",
+        note="ReqRespNoMutex.cfg keeps the design without a call mutex and must violate OwnAnswer.",
+        design_ref="§5 C25", engine="clients"),
     "C26": dict(
         technique="TLA+ decision function of the validity interval per era (Validity.tla), TLC full grid, replay under order-isomorphic time maps through VerifyTransaction and rule by rule",
         text="Accept = (start absent or s >= start) and (end absent or s < end) from Allegra on, s <= ttl in Shelley; TLC emits the full grid era x start x end x slot; each case is replayed under 6 monotone maps onto concrete slots (including 0, 2^63, 2^64-1) in 7 eras on the whole rule list.",
